@@ -48,7 +48,7 @@ def c06_worker(res: Result, i: int, n: int) -> None:
     st.start()
     by_role: dict[str, int] = {}
     distinct: set[bytes] = set()
-    per_class = 6 if res.tier == "quick" else 60
+    per_class = 10 if res.tier == "quick" else 250
     max_ratio = 0.0
     try:
         for cls in classes:
@@ -299,7 +299,7 @@ def c10_worker(res: Result, i: int, n: int) -> None:
     outcomes: dict[str, int] = {}
     kinds: dict[str, int] = {}
     distinct: set[bytes] = set()
-    per_class = 120 if res.tier == "quick" else 6000
+    per_class = 400 if res.tier == "quick" else 30000
     max_ratio = 0.0
     try:
         for cls in classes:
